@@ -809,7 +809,8 @@ fn render_input(toks: &[usize], variant: usize, comments: bool, rng: &mut Rng) -
             s.push_str(*rng.pick(&[" ", " ", "  ", "\n", "\t"]));
         }
         if comments && rng.chance(1, 8) {
-            s.push_str("/* c * / */ ");
+            // plain, nested (the opening rule is reached while COMMENT is active) and doubly nested
+            s.push_str(*rng.pick(&["/* c * / */ ", "/* c * / */ ", "/* x /* y */ z */ ", "/* /* /* */ */ w */ "]));
         }
         s.push_str(*rng.pick(&tab[*t].1));
     }
